@@ -144,6 +144,37 @@ func genPackage(plan *simrt.Source) *pkgSrc {
 			fx.body = append(fx.body, fmt.Sprintf("func AddI%d(a, b int) int {\n\treturn a + b\n}\n\nfunc AddS%d(a, b string) string {\n\treturn a + b\n}\n\nfunc Add%d = (\n\tAddI%d\n\tAddS%d\n)\n\nvar R%d = Add%d(V%d, 1)\nvar S%d = Add%d(\"a\", \"b\")", d, d, d, d, d, d, d, o, d, d))
 		}
 	}
+	// standard-library imports, several per file, in different combinations per file
+	stdlib := [][2]string{{"fmt", "fmt.Sprint(%d)"}, {"strings", "strings.Repeat(\"x\", %d)"}, {"strconv", "strconv.Itoa(%d)"}, {"os", "os.Getenv(\"V%d\")"}, {"path", "path.Base(\"/a/b%d\")"}, {"errors", "errors.New(\"e%d\").Error()"}}
+	if plan.Chance(500) {
+		for fi, f := range files {
+			k := plan.Draw(len(stdlib) + 1)
+			if k == 0 {
+				continue
+			}
+			var imps, uses []string
+			for j := 0; j < k; j++ {
+				lib := stdlib[(fi+j*2+plan.Draw(2))%len(stdlib)]
+				dup := false
+				for _, x := range imps {
+					if x == lib[0] {
+						dup = true
+					}
+				}
+				if dup {
+					continue
+				}
+				imps = append(imps, lib[0])
+				uses = append(uses, fmt.Sprintf(lib[1], fi*10+j))
+			}
+			f.imports = "import (\n"
+			for _, x := range imps {
+				f.imports += "\t\"" + x + "\"\n"
+			}
+			f.imports += ")\n\n"
+			f.body = append(f.body, fmt.Sprintf("func Lib%d() string {\n\treturn %s\n}", fi, strings.Join(uses, " + ")))
+		}
+	}
 	// errors: duplicates across files, undefined names, type errors
 	nerr := 0
 	if plan.Chance(650) {
@@ -488,6 +519,9 @@ func (r *c08run) RunSeq(sched *simrt.Source, keepLog bool) *simrt.Result {
 		res.Faults["listing-shuffled"]++
 		for s, n := range detmap.Unord {
 			r.extra["uncontrolled:"+s] += n
+		}
+		for s, n := range detmap.Sites {
+			r.extra["site:"+s] += n // executions with >= 2 keys: which range sites the workload reaches
 		}
 		mix(strings.Join(listing, ","))
 		logf("compile %d: listing %v, %d permuted range sites", rep, listing, len(touched))
